@@ -36,6 +36,11 @@ def content_for(seed, length):
     return random.Random(seed).randbytes(max(0, length))
 
 
+def content_of(case):
+    """the bytes a reader gets: the written data, plus the zeros of a hole the file was extended by"""
+    return content_for(case["seed"], case["len"]) + b"\0" * case.get("hole", 0)
+
+
 # ------------------------------------------------------------------ chunk loop
 class _Recorder:
     def __init__(self):
@@ -111,6 +116,9 @@ def gen_tags(rng, n, tier):
     # same directory or elsewhere
     for l in (0, 1, 7, 200, cs + 1, 5000):
         cases.append({"len": l, "seed": rng.randrange(1 << 30), "via": rng.choice(["link", "link-far"])})
+    # sparse files: extended by truncate() (a trailing hole), or one big hole
+    for l, hole in ((10, 100_000), (cs, cs), (0, 70_000), (3 * cs + 5, 1)):
+        cases.append({"len": l, "seed": rng.randrange(1 << 30), "hole": hole})
     while len(cases) < n:
         cases.append({"len": rng.choice([rng.randint(0, 64), rng.randint(0, 3 * cs + 10), max(0, rng.randint(cs - 3, cs + 3))]),
                       "seed": rng.randrange(1 << 30)})
@@ -119,10 +127,12 @@ def gen_tags(rng, n, tier):
 
 def impl_tags(case):
     from tempren.primitives import File, QualifiedTagName
-    data = content_for(case["seed"], case["len"])
+    data = content_of(case)
     with common.Sandbox() as root:
         p = root / "f.bin"
-        p.write_bytes(data)
+        p.write_bytes(content_for(case["seed"], case["len"]))
+        if case.get("hole"):
+            os.truncate(p, case["len"] + case["hole"])
         os.utime(p, ns=(1_000_000_000, 1_000_000_000))
         st0 = os.stat(p)
         name = "f.bin"
@@ -150,7 +160,7 @@ def impl_tags(case):
 def lines_tags(case):
     if case["len"] > 400_000:
         return []
-    return ["crc32tag h" + content_for(case["seed"], case["len"]).hex()]
+    return ["crc32tag h" + content_of(case).hex()]
 
 
 def obs_tags(case, answers):
@@ -162,7 +172,7 @@ def compare_tags(case, obs, pred):
 
 
 def oracle_tags(case, obs):
-    data = content_for(case["seed"], case["len"])
+    data = content_of(case)
     expected = {
         "Md5": hashlib.md5(data).hexdigest(), "Sha1": hashlib.sha1(data).hexdigest(),
         "Sha224": hashlib.sha224(data).hexdigest(), "Sha256": hashlib.sha256(data).hexdigest(),
